@@ -36,6 +36,7 @@ Pool ==
          ArrOpenRep(<<>>, I1), ArrOpenRep(<<I1>>, I1), ArrOpenRep(<<Tok(DecDyadic(1, 1), <<FV(1, 1)>>)>>, I1), ArrOpenRep(<<>>, TrueT), ArrOpenRep(<<TrueT>>, TrueT),
          ArrOpenRep(<<TrueT, FalseT>>, FalseT), ArrOpenRep(<<>>, StrA), ArrOpenRep(<<StrA>>, StrA), ArrOpenRep(<<NilT>>, NilT), ArrOpenRep(<<I1, I1>>, I1),
          ArrOpenAny(<<TrueT>>, FalseT), ArrOpenAny(<<FalseT>>, TrueT) } \cup DoubleMixToks \cup {
+         PlainRun(3, 1, 5), PlainRun(1, 1, 6), PlainRun(10, 0 - 2, 5), PlainRun(0 - 2, 1, 5), PlainRun(7, 0, 5),
          Tok(Dec(9), <<IV(9)>>), Tok(<<34, 122, 34>>, <<[t |-> "s", v |-> <<122>>]>>), Tok(DecDyadic(1, 1), <<FV(1, 1)>>) }
 Init == toks = <<>> /\ seps = <<>> /\ trail \in Trailers
 Next == /\ Len(toks) < MaxTokens
